@@ -563,7 +563,7 @@ fn run_efb(ep: &Value, ctx: &mut Ctx, hdr: &Value, ops: &[Value], progs: &[Vec<J
         ef_parts(b.build())
     });
     match (conc, seq) {
-        (Ok(c), Ok(q)) => ctx.emit(&op, "ret", json!({"conc": c, "seq": q, "outs": outs_json(outs)})),
+        (Ok(c), Ok(q)) => ctx.emit(&op, "ret", json!({"cb": c, "sb": q, "outs": outs_json(outs)})),
         (c, q) => ctx.emit(
             &op,
             "panic",
